@@ -8,7 +8,7 @@ AREA = "cesium"
 CHANSETS = '{{"I"}, {"I","D","V"}, {"D"}, {"D","V"}}'
 
 
-def gen_cfg(spec, T, depth, maxlen=3, maxid=8, writers=2, inv="EmitSim", chansets=CHANSETS, early=False, deletes=True):
+def gen_cfg(spec, T, depth, maxlen=3, maxid=8, writers=2, inv="EmitSim", chansets=CHANSETS, early=False, deletes=True, plan=0):
     ws = ", ".join('"w%d"' % (i + 1) for i in range(writers))
     return """SPECIFICATION %s
 CONSTANTS
@@ -19,10 +19,11 @@ CONSTANTS
   ChanSets = %s
   EarlyStart = %s
   DeletesOn = %s
+  PlanId = %d
   Depth = %d
 INVARIANTS %s
 CHECK_DEADLOCK FALSE
-""" % (spec, T, ws, maxlen, maxid, chansets, "TRUE" if early else "FALSE", "TRUE" if deletes else "FALSE", depth, inv)
+""" % (spec, T, ws, maxlen, maxid, chansets, "TRUE" if early else "FALSE", "TRUE" if deletes else "FALSE", plan, depth, inv)
 
 
 def write_hists(res, path, keep=None, dedupe=True, limit=None, seed=1):
